@@ -347,6 +347,17 @@ func runC08(c *Config, r *Report) {
 	c08R11(ic, r)
 	c04R20(ic, r, "R08.13")
 	closureFrameCloned(ic, r, "R08.14")
+	c08R16(ic, r)
+	{
+		// R08.15 = R01.39 and R01.40: the receive clauses of select assign the enclosing variable and every form has a direction
+		sub := newReport("C01")
+		c01R39and40(ic, sub)
+		for _, o := range sub.Obls {
+			o.Rule = "R08.15"
+			r.add(o)
+		}
+		r.Errors = append(r.Errors, sub.Errors...)
+	}
 	// R08.12: = R05.11: the function value a go statement starts carries a receiver evaluated
 	// when the method value was evaluated (go w.run(out) in a loop over []*worker)
 	{
@@ -1651,6 +1662,7 @@ func c08R10(ic *IC, r *Report) {
 
 func init() {
 	ruleText["R08.12"] = "= R05.11 shared: a method value carries the receiver evaluated with it, for value and pointer receivers: the goroutine started by go x.m(args) works on the x of the go statement, not on what the variable holds when the goroutine gets to run"
+	ruleText["R08.15"] = "= R01.39 and R01.40 shared: `case x = <-c` of a select assigns the variable of the enclosing scope (a variable is declared only for :=), and every form of comm clause is given a direction before reflect.Select is called"
 	ruleText["R08.14"] = "= R04.6 / R11.5 shared: the function value created for a function literal captures a clone of the defining frame on every path - also for a literal called where it is written, which `go func() {...}()` runs after the statement has returned: with the live frame the goroutine sees the variables of the later iterations"
 	ruleText["R08.13"] = "= R04.20 shared: a goroutine argument of interface type, and a value sent on a channel of interface type, hold a copy of the value: the receiver does not follow the sender's variable"
 	ruleText["R08.11"] = "a function value created at run time (function literal given to reflect.MakeFunc) writes only the frame it allocates for its own activation: every store into a data vector inside the literal is rooted at a frame created there by newFrame (or a local alias of its vector) - the call may return in another goroutine, at any time, and the creating frame belongs to the creator"
@@ -1741,5 +1753,128 @@ func c08R11(ic *IC, r *Report) {
 	}
 	if n < 2 {
 		r.Errorf("R08.11: only %d function literals given to reflect.MakeFunc found", n)
+	}
+}
+
+func init() {
+	ruleText["R08.16"] = "a value is sent by a select clause as a send statement sends it: in _select, every value generator stored for a clause in the send direction (under a test of the direction against reflect.SelectSend, or next to the assignment of that direction) is the result of a function that reaches genDestValue - the function `send` uses for the same purpose - not of a plain genValue: the element type of the channel decides how the value is wrapped or converted"
+}
+
+// c08R16: D129 (round-8 report on C08, P5). Sibling agreement between send and _select.
+func c08R16(ic *IC, r *Report) {
+	info := ic.Info
+	sel := ic.fn(r, "_select")
+	snd := ic.fn(r, "send")
+	if sel == nil || snd == nil {
+		return
+	}
+	// the reference: what send uses for the value sent
+	ref := callsIn(info, snd.Decl.Body, false, "interp.genDestValue")
+	if len(ref) == 0 {
+		r.Errorf("R08.16: send does not call genDestValue any more: the reference of the sibling rule is gone")
+		return
+	}
+	// functions of the package reaching genDestValue (one level of wrappers is enough here)
+	reaches := map[string]bool{"interp.genDestValue": true}
+	for _, name := range sortedKeys(ic.F) {
+		fi := ic.F[name]
+		if fi.Decl.Body != nil && len(callsIn(info, fi.Decl.Body, false, "interp.genDestValue")) > 0 && fi.Obj != nil {
+			reaches[canonKey(fi.Obj.Pkg(), shortKey(objKey(fi.Obj)))] = true
+		}
+	}
+	var keys []string
+	for k := range reaches {
+		keys = append(keys, k)
+	}
+	isSendDir := func(e ast.Node) bool {
+		found := false
+		ast.Inspect(e, func(z ast.Node) bool {
+			if se, ok := z.(*ast.SelectorExpr); ok && se.Sel.Name == "SelectSend" {
+				found = true
+			}
+			return true
+		})
+		return found
+	}
+	// the slices of generators read for the Send field of a select case: cases[i].Send = S[i](f)
+	sendSlices := map[types.Object]bool{}
+	ast.Inspect(sel.Decl.Body, func(q ast.Node) bool {
+		as, ok := q.(*ast.AssignStmt)
+		if !ok || len(as.Lhs) != 1 || len(as.Rhs) != 1 {
+			return true
+		}
+		if se, ok := unparen(as.Lhs[0]).(*ast.SelectorExpr); !ok || se.Sel.Name != "Send" {
+			return true
+		}
+		if c, ok := unparen(as.Rhs[0]).(*ast.CallExpr); ok {
+			if ix, ok := unparen(c.Fun).(*ast.IndexExpr); ok {
+				if id := identOf(ix.X); id != nil {
+					sendSlices[info.ObjectOf(id)] = true
+				}
+			}
+		}
+		return true
+	})
+	if len(sendSlices) == 0 {
+		r.Errorf("R08.16: no assignment of the Send field of a select case from a slice of generators found in _select")
+		return
+	}
+	n := 0
+	ast.Inspect(sel.Decl.Body, func(q ast.Node) bool {
+		if _, ok := q.(*ast.FuncLit); ok {
+			return false
+		}
+		cc, ok := q.(*ast.CaseClause)
+		if !ok {
+			return true
+		}
+		// a clause about the send direction: its condition tests SelectSend, or its body assigns it
+		about := false
+		for _, e := range cc.List {
+			if isSendDir(e) {
+				about = true
+			}
+		}
+		for _, st := range cc.Body {
+			if as, ok := st.(*ast.AssignStmt); ok && len(as.Rhs) == 1 && isSendDir(as.Rhs[0]) {
+				about = true
+			}
+		}
+		if !about {
+			return true
+		}
+		for _, st := range cc.Body {
+			as, ok := st.(*ast.AssignStmt)
+			if !ok || len(as.Lhs) != 1 || len(as.Rhs) != 1 {
+				continue
+			}
+			ix, ok := unparen(as.Lhs[0]).(*ast.IndexExpr)
+			if !ok {
+				continue
+			}
+			// a slice of value generators
+			sl, ok := info.TypeOf(ix.X).Underlying().(*types.Slice)
+			if !ok {
+				continue
+			}
+			if _, isFn := sl.Elem().Underlying().(*types.Signature); !isFn {
+				continue
+			}
+			c, ok := unparen(as.Rhs[0]).(*ast.CallExpr)
+			if !ok {
+				continue
+			}
+			// only the slice whose generators yield the Send field of the select cases
+			if id := identOf(ix.X); id == nil || !sendSlices[info.ObjectOf(id)] {
+				continue
+			}
+			n++
+			r.Check(isCallTo(info, c, keys...), "R08.16", fmt.Sprintf("_select/send-value#%d/converted-as-in-a-send-statement", n), ic.pos(as.Pos()), "the generator of the value sent reaches genDestValue, as in send",
+				"_select obtains the value sent by a clause with "+types.ExprString(c)+", which does not reach genDestValue (send uses "+types.ExprString(ref[0])+"): the value is handed to reflect.Select as it is, so `select { case sc <- Sq{3}: }` on a channel of an interpreted interface type panics (value of type struct is not assignable to type interp.valueInterface) where the statement `sc <- Sq{3}` works")
+		}
+		return true
+	})
+	if n < 2 {
+		r.Errorf("R08.16: only %d value generators of send clauses found in _select (with and without clause body expected)", n)
 	}
 }
